@@ -124,9 +124,9 @@ def run(ctx):
                 res.unknown("D-TRIAD", f, norm(lp.iter), "both-partners-old", "the condition of the three-body infection was not recognised", loc(v.fi, lp))
             for g_ in guards_:
                 t_in = v.inline(g_.test, depth=1)
-                old_reads = [x for x in ast.walk(g_.test) if isinstance(x, ast.Subscript) and isinstance(x.value, ast.Name) and x.value.id == old]
+                old_reads = [x for x in ast.walk(t_in) if isinstance(x, ast.Subscript) and isinstance(x.value, ast.Name) and x.value.id == old]
                 restricted = None
-                for x in ast.walk(g_.test):
+                for x in ast.walk(t_in):
                     if isinstance(x, ast.Compare) and any(isinstance(o, (ast.In, ast.NotIn)) for o in x.ops):
                         for c_ in x.comparators:
                             if _from_pairwise(c_):
